@@ -53,6 +53,10 @@ ToggleE(i) == net' = [net EXCEPT !.E[i].svc = ~@] /\ last' = "ToggleE"
 ToggleCA(i) == /\ net.E[i].tbl \in {"flow_control", "press_control"}
                /\ net' = [net EXCEPT !.E[i].ca = ~@] /\ last' = "ToggleCA"
 ToggleN(i) == net' = [net EXCEPT !.N[i].svc = ~@] /\ last' = "ToggleN"
+(* a circulation pump created without a flow temperature is of type "p": it fixes the pressure like a "pt" one and feeds with the  *)
+(* start temperature of its flow junction (same connectivity; only the temperature it imposes differs)                          *)
+ToggleTyp(i) == /\ net.E[i].tbl \in CircPumpTables
+                /\ net' = [net EXCEPT !.E[i].typ = IF @ = "pt" THEN "p" ELSE "pt"] /\ last' = "ToggleTyp"
 
 Create ==
     \/ AddJ
@@ -61,7 +65,7 @@ Create ==
     \/ \E k \in NKinds, j \in JLabs(net) : AddN(k[1], k[2], j)
 Toggle ==
     \/ \E i \in DOMAIN net.J : ToggleJ(i)
-    \/ \E i \in DOMAIN net.E : ToggleE(i) \/ ToggleCA(i)
+    \/ \E i \in DOMAIN net.E : ToggleE(i) \/ ToggleCA(i) \/ ToggleTyp(i)
     \/ \E i \in DOMAIN net.N : ToggleN(i)
 Next == Create \/ Toggle
 
